@@ -193,9 +193,12 @@ def compile_ast(doc: dict, uri: str, start: int, compiler: Compiler | None = Non
     return out
 
 
-def stream(opts: tuple, sources: list) -> list:
-    """sources: list of (uri, data) through one GherkinEvents."""
+def stream(opts: tuple, sources: list, stop: bool = False) -> list:
+    """sources: list of (uri, data) through one GherkinEvents; `stop`: the stream's parser is switched
+    to stop-at-first-error mode (public attribute) before the first source."""
     ev = GherkinEvents(GherkinEvents.Options(*opts))
+    if stop:
+        ev.parser.stop_at_first_error = True
     res = []
     for uri, data in sources:
         event = {"source": {"uri": uri, "data": data, "mediaType": "text/x.cucumber.gherkin+plain"}}
